@@ -480,6 +480,9 @@ func main() {
 		run.Add("slow-upstream", vh.App("CServe", vh.N(x.kind), vh.Z(x.s.limit), vh.Z(x.s.delay), vh.Z(int64(x.ust)), vh.Z(int64(x.status)), vh.Z(x.elapsed), vh.Z(atomic.LoadInt64(&x.hits))),
 			map[string]interface{}{"transport": kindName[x.kind], "limit_ms": x.s.limit, "delay_ms": x.s.delay, "upstream_status": x.ust, "client_status": x.status, "elapsed_ms": x.elapsed, "upstream_hits": x.hits})
 	}
+	// 4b. whole exchanges (slow upload, slow body) behind a real listener: body.go; random choices from a source of its own
+	bodyClass(run, &mu)
+	transport.SetConfig(cur.cfg())
 	realMain(run, r)
 	// 5. the dial timeout in action for each kind of target: the default transport, the skip-verify one
 	// (main.go InsecureTransport) and a per-route host-override transport.  1 ns cannot be met even on
@@ -639,6 +642,7 @@ func realMain(run *vh.Run, r *rand.Rand) {
 				map[string]interface{}{"route": q.Path, "limit_ms": rhtMs, "delay_ms": q.DelayMs, "client_status": q.Status, "elapsed_ms": q.Elapsed, "upstream_hits": q.Hits, "remeasured": q.Remeasured})
 		}
 	}
+	realMainBody(run, bin, repo, dir)
 }
 
 func abs(x int64) int64 {
